@@ -149,7 +149,9 @@ class _WriteRequest:
         self.addr = addr
         self._bytes_left = len(data)
         self._write_len = self._bytes_left
-        self._data = data
+        # Keep our own copy: the request may wait in the queue, the caller is
+        # free to re-use its buffer as soon as write() has returned
+        self._data = data[:]
         self.data = bytearray()
         self.cf = cf
         self._progress_cb = progress_cb
